@@ -285,12 +285,19 @@ func checkC13(P *Program, r *Result, tier string) {
 		"CURSOR-ARG (every codec/recursive call is issued at the running cursor, on every enumerated path), FRESH-OUT (the reader recursion always receives a zeroed UnknownField: a fresh make() element or a local reset since its last use), " +
 		"TAGS (KeyType/ValType are stored only in the MAP / SET / LIST cases and from the container header that was read)."
 	A := newAnalysis(P)
-	rd := P.Func(relUF, "readUnknownField")
-	ln := P.Func(relUF, "unknownFieldLength")
-	wr := P.Func(relUF, "writeUnknownField")
 	conv := P.Func(relUF, "ConvertUnknownFields")
 	lns := P.Func(relUF, "UnknownFieldsLength")
 	wrs := P.Func(relUF, "WriteUnknownFields")
+	// the per-field workers behind the exported entry points, found by signature
+	rd := P.findReachable([]*ssa.Function{conv}, func(f *ssa.Function) bool {
+		return f != conv && sigIs(f, "(*UnknownField, []byte, int8, int16)", "(int, error)")
+	})
+	ln := P.findReachable([]*ssa.Function{lns}, func(f *ssa.Function) bool {
+		return f != lns && sigIs(f, "(*UnknownField)", "(int, error)")
+	})
+	wr := P.findReachable([]*ssa.Function{wrs}, func(f *ssa.Function) bool {
+		return f != wrs && sigIs(f, "([]byte, *UnknownField)", "(int, error)")
+	})
 	if !r.require("unknownfields: reader, length and writer functions", rd != nil && ln != nil && wr != nil && conv != nil && lns != nil && wrs != nil) {
 		return
 	}
